@@ -247,11 +247,12 @@ impl InputState {
         } else if s.starts_with('s') {
             self.curr_completions = Some((vec!["set ".chars().collect()], 0));
         } else if s.starts_with('F') && self.input_index > 1 && self.input_index <= 4 {
-            let comp = match &s[1..2] {
-                "C" => "FC = ",
-                "D" => "FD = ",
-                "E" => "FE = ",
-                "F" => "FF = ",
+            // `input_index` counts characters, not bytes
+            let comp = match self.input.get(1) {
+                Some('C') => "FC = ",
+                Some('D') => "FD = ",
+                Some('E') => "FE = ",
+                Some('F') => "FF = ",
                 _ => return,
             };
             self.curr_completions = Some((vec![comp.chars().collect()], 0));
